@@ -18,25 +18,6 @@ namespace ZxVerif.C02
 open ZxVerif.Z80
 variable {β : Type} [Bus β]
 
-/-- the interrupt check of `emulate` is the decision followed by the corresponding entry sequence -/
-theorem checkInterrupt_eq_decision (s : Cpu) (b : β) :
-    checkInterrupt s b =
-      match decision s b with
-      | .nmi => acceptNmi s b
-      | .int => acceptInt s b
-      | .none => ({ s with skipInt := false }, b) := by
-  unfold checkInterrupt decision handleInterrupt
-  by_cases h1 : s.skipInt = true
-  · simp [h1]
-  · have h1' : s.skipInt = false := by simpa using h1
-    by_cases h2 : Bus.nmiActive b = true
-    · simp [h1', h2]
-    · by_cases h3 : (Bus.intActive b && s.iff1) = true
-      · simp [h1', h2, h3]
-      · have : s = { s with skipInt := false } := by cases s; simp_all
-        simp [h1', h2, h3]
-        exact this
-
 /-- **INT only when enabled.** Whatever the lines do: if the boundary accepts a maskable interrupt
 then IFF1 was set, the previous instruction was neither EI nor DI nor a parked prefix
 (`skipInt = false`), the INT line is active and no NMI is pending. -/
